@@ -7,6 +7,7 @@ structure S where
   ns   : Option NewSsi := none
   file : Option Bytes := none        -- the index file on disk
   ssi  : Option Ssi := none
+  tmp  : Bool := false               -- a tmp file of the external sort exists
 
 def fnvBytes (bs : Bytes) : UInt64 :=
   bs.foldl (fun h b => (h ^^^ b.toUInt64) * (0x100000001b3 : UInt64)) (0xcbf29ce484222325 : UInt64)
@@ -29,7 +30,27 @@ def HEXLIMIT : Nat := 1500
 def step (s : S) (line : String) : S × String :=
   let ws := words line
   match ws with
-  | "new" :: _ => ({ s with ns := some {}, file := some [], ssi := none }, "ok")
+  | "new" :: _ =>
+    -- esl_newssi_Open: with allow_overwrite FALSE an existing index or tmp file gives eslEOVERWRITE and nothing is touched;
+    -- otherwise the index file is created empty (fopen "w")
+    match argNat? ws "ow" with
+    | none => ({ s with ns := some {}, file := some [], ssi := none, tmp := false }, "ok")
+    | some ow =>
+      let pre := (argNat? ws "pre").getD 0
+      let file0 : Option Bytes := if pre = 1 then some [111, 108, 100] else none
+      let tmp0 := pre = 2 || pre = 3
+      if ow = 0 ∧ pre ≠ 0 then
+        ({ s with ns := none, file := file0, ssi := none, tmp := tmp0 },
+         s!"eoverwrite file={if file0.isSome then 1 else 0} n={(file0.getD []).length} tmp={if tmp0 then 1 else 0}")
+      else
+        ({ s with ns := some {}, file := some [], ssi := none, tmp := tmp0 }, s!"ok file=1 n=0 tmp={if tmp0 then 1 else 0}")
+  | "closens" :: _ =>
+    match s.ns with
+    | some ns =>
+      -- esl_newssi_Close: removes the tmp files iff the index went external; the (empty) index file stays
+      let tmp := if ns.external then false else s.tmp
+      ({ s with ns := none, tmp := tmp }, s!"ok file={if s.file.isSome then 1 else 0} n={(s.file.getD []).length} tmp={if tmp then 1 else 0}")
+    | none => (s, "bad-op")
   | "addfile" :: _ =>
     match s.ns, argHex? ws "name", argNat? ws "fmt" with
     | some ns, some name, some fmt =>
@@ -68,8 +89,9 @@ def step (s : S) (line : String) : S × String :=
       let (_, st, file) := ns.write s.file
       let bytes := file.getD []
       let hx := if bytes.length ≤ HEXLIMIT then " hex=" ++ hexOrDash bytes else ""
-      ({ s with ns := none, file := file },
-       s!"{stName st} file={if file.isSome then 1 else 0} tmp=0 n={bytes.length} h={hex64 (fnvBytes bytes)}{hx}")
+      let tmp := if ns.external then false else s.tmp      -- Close removes the tmp files iff external
+      ({ s with ns := none, file := file, tmp := tmp },
+       s!"{stName st} file={if file.isSome then 1 else 0} tmp={if tmp then 1 else 0} n={bytes.length} h={hex64 (fnvBytes bytes)}{hx}")
     | none => (s, "bad-op")
   | "openraw" :: _ =>
     match argHex? ws "hex" with
